@@ -108,6 +108,14 @@ CHECKS = {
    note="Trusted: TLC, hooks H1-H3 and the harness's logging. Programs are random beyond the bounds TLC explores exhaustively; a rule fires only for events "
         "impossible in any behaviour satisfying the property, so ties and unspecified orders are never judged.",
    technique="TLA+ monitor (step function) folded by TLC over recorded kernel traces; TLC model checking of the kernel model"),
+ "C20": dict(level="model_checking", design="DESIGN.md §4 C20",
+   text="TLC checks an implementation-shaped model of the pool allocator (spec/Mempool.tla: LIFO free list, chunks, growth of the chunk list, static "
+        "thread-local pools) for distinctness, containment, accounting and content stability over all alloc/free histories with small geometry; "
+        "seeded histories on real pools (object sizes 8..4096, dynamic and CMI_MEMPOOL_STATIC_INIT pools, up to 300 chunks, every object patterned "
+        "and verified) are recorded and validated by TLC against spec/MempoolTrace.tla.",
+   note="Trusted: TLC, the harness's address-to-(chunk,slot) mapping through the public chunk list. Geometry of the model is tiny; thresholds of the real "
+        "allocator (64/128 chunks) are crossed by the harness only. Memory errors inside the allocator are C10's.",
+   technique="TLA+ model checking (TLC) of the allocator model + TLC trace validation of recorded allocation histories"),
 }
 NA = {}
 
